@@ -68,6 +68,8 @@ func (v *PointerSchema) process(ctx *p.SchemaCtx) {
 			return
 		}
 		ctx.Data = val
+		// the pointed-to schema must receive the decoded provider, not the factory again (a request body can only be read once)
+		subCtx.Data = val
 	}
 	// End of messy code
 
